@@ -112,8 +112,26 @@ pub fn search(seed: u64, _full: bool, rt: &tokio::runtime::Runtime) -> SearchRes
     let mut n = 0;
     n += rt.block_on(run_cfg::<akd_core::WhatsAppV1Configuration>("whatsapp_v1", seed, &mut out));
     n += rt.block_on(run_cfg::<akd_core::ExperimentalConfiguration<akd_core::ExampleLabel>>("experimental", seed, &mut out));
+    // attacker-chosen counters at the top of their range: a panic is not a rejection
+    for (cfg, f) in [("whatsapp_v1", akd::vx_export::c19_counter_at_max::<akd_core::WhatsAppV1Configuration> as fn(u8) -> String),
+                     ("experimental", akd::vx_export::c19_counter_at_max::<akd_core::ExperimentalConfiguration<akd_core::ExampleLabel>> as fn(u8) -> String)] {
+        for which in 0..2u8 {
+            let r = f(which);
+            n += 1;
+            if r != "err" {
+                out.push(Failure {
+                    clause: (if which == 0 { "verify_history/verify_with_history_params#body" } else { "auditor/audit_verify#body" }).into(),
+                    case: vec!["c19".into(), "countermax".into(), cfg.into(), which.to_string()],
+                    input: format!("[{cfg}] {}", if which == 0 { "key_history_verify on a history proof whose second entry claims version u64::MAX" } else { "audit_verify on an append-only proof whose epoch list holds u64::MAX" }),
+                    expected: "an error (in a build with overflow checks, as `cargo test` and debug builds are)".into(),
+                    observed: r,
+                    finding_id: None,
+                });
+            }
+        }
+    }
     let _ = std::panic::take_hook();
-    SearchResult { evaluations: n, failures: out, summary: "BOUNDED whole-proof check: real lookup / history (Complete, MostRecent) / append-only proofs of a 3-epoch directory through proto message and wire bytes and back (identical proof, same verification result); every truncation and 300 seeded bit flips of each encoding decode without panic; both configurations".into() }
+    SearchResult { evaluations: n, failures: out, summary: "counters at u64::MAX in a history proof / an audit proof are refused without panic; BOUNDED whole-proof check: real lookup / history (Complete, MostRecent) / append-only proofs of a 3-epoch directory through proto message and wire bytes and back (identical proof, same verification result); every truncation and 300 seeded bit flips of each encoding decode without panic; both configurations".into() }
 }
 
 pub fn replay(_case: &[&str], rt: &tokio::runtime::Runtime) -> (bool, String) {
